@@ -69,14 +69,34 @@ func (c Call) Mutating() bool {
 // RecStore wraps a FilerStore and logs every path-addressed call.
 type RecStore struct {
 	filer.FilerStore
-	mu  sync.Mutex
-	log []Call
+	mu   sync.Mutex
+	log  []Call
+	seen map[string]bool
 }
 
 func (s *RecStore) rec(op string, p util.FullPath) {
 	s.mu.Lock()
 	s.log = append(s.log, Call{op, string(p)})
+	if op == "Insert" || op == "Update" {
+		// remembered for Wipe: an entry written under an unclean path (".." segments,
+		// trailing "/") is not reachable by walking the tree
+		if s.seen == nil {
+			s.seen = map[string]bool{}
+		}
+		s.seen[string(p)] = true
+	}
 	s.mu.Unlock()
+}
+
+func (s *RecStore) takeSeen() []string {
+	s.mu.Lock()
+	defer s.mu.Unlock()
+	var l []string
+	for p := range s.seen {
+		l = append(l, p)
+	}
+	s.seen = nil
+	return l
 }
 
 // Take returns the calls recorded since the last Take and clears the log.
@@ -441,12 +461,23 @@ func (e *Env) SnapshotString(dir string) string {
 }
 
 // Wipe removes everything below dir directly on the raw store (nothing is
-// recorded) and forgets the filer's bucket table entries.
+// recorded), also every entry ever written under a path string that lies below
+// dir lexically (entries written under unclean paths are not reachable by the
+// walk), and forgets the filer's bucket table entries.
 func (e *Env) Wipe(dir string) {
 	nodes := e.Snapshot(dir)
 	for i := len(nodes) - 1; i >= 0; i-- {
 		must(e.Raw.DeleteEntry(e.ctx, util.FullPath(nodes[i].Path)))
 	}
+	pre := strings.TrimSuffix(dir, "/") + "/"
+	for _, p := range e.Store.takeSeen() {
+		if strings.HasPrefix(p, pre) {
+			must(e.Raw.DeleteEntry(e.ctx, util.FullPath(p)))
+		} else {
+			e.Store.rec("Update", util.FullPath(p)) // keep remembering it
+		}
+	}
+	e.Store.Take()
 	e.Filer.LoadBuckets()
 }
 
